@@ -315,8 +315,33 @@ fn gen_machine_for_roundtrip(g: &mut Gen, stats: &mut Stats) -> Machine {
 
 fn corrupt(g: &mut Gen, base: &str, other: &str, stats: &mut Stats) -> (String, String) {
     let mut b: Vec<u8> = base.as_bytes().to_vec();
-    let kind = g.below(12);
+    let kind = g.below(14);
     let what = match kind {
+        12 => {
+            // very short strings around the 3-byte length guard and the 2-byte version prefix:
+            // blanks, line ends, version digits, base64 symbols (a parser that trims after its
+            // length check indexes past the end on these)
+            let n = g.usize(7);
+            b = (0..n).map(|_| *g.pick(b" \t\r\n\x0b\x0c0012=A/+\0")).collect();
+            "short_string"
+        }
+        13 => {
+            // a well-formed encoding framed by blanks / line ends: before, after, both, or
+            // between the version prefix and the payload
+            let ws = *g.pick(&[" ", "\n", "\r\n", "\t", "  ", " \n "]);
+            let mut out: Vec<u8> = vec![];
+            match g.below(4) {
+                0 => { out.extend(ws.as_bytes()); out.extend(&b); }
+                1 => { out.extend(&b); out.extend(ws.as_bytes()); }
+                2 => { out.extend(ws.as_bytes()); out.extend(&b); out.extend(ws.as_bytes()); }
+                _ => {
+                    let k = 2.min(b.len());
+                    out.extend(&b[..k]); out.extend(ws.as_bytes()); out.extend(&b[k..]);
+                }
+            }
+            b = out;
+            "whitespace_framing"
+        }
         0 => {
             let n = g.usize(b.len() + 1);
             b.truncate(n);
